@@ -346,6 +346,8 @@ def run(cx):
         }
 
         def is_spawn(callee):
+            if not callee:           # a call through a function value: never one of the spawn APIs by name; its targets are
+                return False         # the function items the body mentions, which are visited on their own
             segs = callee.split("::")
             last = segs[-1]
             return (segs[0] in ("tokio", "std", "futures", "futures_util", "async_std") and (last.startswith("spawn") or last in ("block_in_place",))
